@@ -1131,6 +1131,8 @@ def _list_decorators() -> Dict[str, Callable[[_FN], _FN]]:
                     for i, item in enumerate(value):
                         self.insert(i + start, item)
                 else:
+                    if value is self:
+                        value = list(value)
                     rng = list(range(start, stop, step))
                     if len(value) != len(rng):
                         raise ValueError(
